@@ -176,7 +176,7 @@ pub fn comment_start(input: &mut LineReader) -> Parsed<(), ParseError> {
     }
 }
 
-pub fn comment_body<'a>(input: &'a mut LineReader) -> &'a BStr {
+pub fn comment_body<'a>(input: &'a mut LineReader) -> Result<&'a BStr, ParseError> {
     let mut offset = 0;
 
     while !matches!(
@@ -186,7 +186,10 @@ pub fn comment_body<'a>(input: &'a mut LineReader) -> &'a BStr {
         offset += 1;
     }
 
-    input.reader.advance_with_buf(offset).into()
+    // A comment may end at the end of the input, but not where the source merely failed.
+    input.reader.check_io_error()?;
+
+    Ok(input.reader.advance_with_buf(offset).into())
 }
 
 #[inline]
